@@ -150,6 +150,12 @@ def _one(rc: RuleCtx, name: str):
         fr.block(pre, env, TRUE)
     except Unsupported as e:
         raise AnalysisError(f"{fi.qualname}: pre-loop code not modelled: {e}")
+    # an exit in front of the pass is the pass skipped: with two points the second one still has to be compared with the first
+    from .common import early_exits_bounded
+    anf.declare_integer(sym("N"))
+    early_exits_bounded(rc, "L1", fi, fr.returns, sym("N"), 1, f"{fi.qualname}")
+    from .common import account_exits
+    account_exits(fi)
     rn = returned_names(post)
     if rn is None:
         raise AnalysisError(f"{fi.qualname}: expected one return after the loop")
